@@ -79,6 +79,10 @@ def check_A(item, r):
                         initial_state_dist=base.initial_state_dist, is_absorbing=base.is_absorbing, discount_rate=float(spec.gamma))
     tabular = ci != 2
     states = [sl(s) for s in range(spec.n)]
+    if tabular and (li + ci) % 2 == 0:
+        # the base MDP's arrays have already been computed (e.g. it was planned on) before it is augmented
+        base.transition_matrix, base.reward_matrix, base.absorbing_state_vec, base.action_matrix, base.initial_state_vec
+        base.state_action_reward_matrix, base.reachable_states()
     over = {
         'initial_state_dist': lambda: DictDistribution({sl(spec.n - 1): 1.0}),
         'actions': lambda s: (al('a'),),
@@ -133,6 +137,30 @@ def check_A(item, r):
                 if got[c] != want:
                     r.violation('augment_component_differs', {'overridden': sub, 'component': c, 'class': type(base).__name__,
                                                                'got': repr(got[c])[:300], 'want': repr(want)[:300]}, item)
+            # the derived MDP's array views must show its own (possibly overridden) functions, whatever the base had cached
+            if tabular and 'state_list' not in sub and 'action_list' not in sub:
+                try:
+                    SL_, AL_ = list(aug.state_list), list(aug.action_list)
+                    tm, rm, av, iv = aug.transition_matrix, aug.reward_matrix, aug.absorbing_state_vec, aug.initial_state_vec
+                    ok = True
+                    for i, s_ in enumerate(SL_):
+                        if abs(float(iv[i]) - float(dict(aug.initial_state_dist().items()).get(s_, 0))) > 1e-12:
+                            ok = False
+                        if bool(aug.is_absorbing(s_)) and not bool(av[i]):
+                            ok = False
+                        for a_ in aug.actions(s_):
+                            j = AL_.index(a_)
+                            d = dict(aug.next_state_dist(s_, a_).items())
+                            for k2, ns_ in enumerate(SL_):
+                                p_ = float(d.get(ns_, 0))
+                                if abs(float(tm[i, j, k2]) - p_) > 1e-12 or (p_ > 0 and float(rm[i, j, k2]) != float(aug.reward(s_, a_, ns_))):
+                                    ok = False
+                    r.count('transitions')
+                    if not ok:
+                        r.violation('augment_arrays_do_not_show_the_derived_functions', {'overridden': sub, 'class': type(base).__name__,
+                                                                                     'base_arrays_precomputed': (li + ci) % 2 == 0}, item)
+                except BaseException as e:
+                    r.violation('augment_arrays_exception', {'overridden': sub, 'error': repr(e)[:300], 'class': type(base).__name__}, item)
             if 0 < k < len(comps):
                 r.nontriv((spec_item, li, ci, sub))
     if hash(repr(item)) % 40 == 0:
